@@ -231,6 +231,8 @@ func genBase(t *rapid.T, c *Case) {
 	c.MyCall = genCall(t, "mycall")
 	c.Remote = genOther(t, "remote", c.MyCall, c.MyCall)
 	c.Accept = rapid.Bool().Draw(t, "accept")
+	c.ReverseY = rapid.IntRange(0, 3).Draw(t, "reverse_y") == 0
+	c.CtxCancel = !c.Accept && rapid.Bool().Draw(t, "ctx_cancel")
 	c.MaxFrame = rapid.IntRange(1, 7).Draw(t, "maxframe")
 	c.NulTerm = rapid.Bool().Draw(t, "nulterm")
 	if !c.Accept {
